@@ -1,19 +1,32 @@
-"""textx/export.py -> Gen/SrcExport.v: the dot_escape replacement chain, the dot_repr truncation
-and quoting, and every output template of model_export_to_file / _export / _export_subgraph and of
-DotRenderer.render_class / render_attr_link / render_inherited_by with each hole classified."""
+"""textx/export.py -> Gen/SrcExport.v (fail closed).
+
+Translated facts:
+  * escape_chain   the chain of single-character str.replace calls of dot_escape, in application order
+  * repr_limit     the truncation length of dot_repr (whose whole source shape is compared)
+  * model_doc / metamodel_doc / plantuml_doc : a regular over-approximation (type tx) of every text the
+    exporters can write: first write, any sequence of the other output statements, last write.  Each output
+    statement is its literal text with holes; every hole is classified syntactically by the expression that
+    fills it (id(..) -> HDigits, dot_escape(..) -> HEscaped, grammar names -> HIdent, ...) and anything not
+    recognised is HRaw, which no safety check in Coq accepts.  Variables are replaced by the union of what is
+    assigned to them (`x = a`, `x += b`, `x = f"{x}..."` -> (a)(b|...)* ).
+The translator makes no safety judgement itself: literals, order and hole kinds are checked in Coq."""
 import ast
 from .common import parse_file, find_func, need, emit, coq_codes, TranslateError
 
-SAFE_NAMES = {"attr_name": "HIdent", "idx": "HDigits", "required": "HConst", "endmark": "HConst", "arrowtail": "HConst", "mult": "HConst"}
+IDENT_EXPRS = {"cls.name", "cls.fqn", "attr.name", "attr.cls.name", "attr.cls.fqn", "obj_cls.__name__",
+               "type(list_obj).__name__", "type(attr_value).__name__", "base.fqn", "special.fqn"}
+PLAIN_EXPRS = {"attr.mult", "cls.typ", "self.linetype"}
+PRIM_TEST = "type({v}) in PRIMITIVE_PYTHON_TYPES"
 
 
 def chain_of(fn):
     """dot_escape: a chain of .replace(one_char, string) on the argument."""
     need(len(fn.body) == 1 and isinstance(fn.body[0], ast.Return), "dot_escape is not a single return")
+    need([a.arg for a in fn.args.args] == ["s"], "dot_escape parameters changed")
     e = fn.body[0].value
     chain = []
     while isinstance(e, ast.Call) and isinstance(e.func, ast.Attribute) and e.func.attr == "replace":
-        need(len(e.args) == 2 and all(isinstance(a, ast.Constant) and isinstance(a.value, str) for a in e.args), "replace arguments are not literals")
+        need(len(e.args) == 2 and not e.keywords and all(isinstance(a, ast.Constant) and isinstance(a.value, str) for a in e.args), "replace arguments are not two literals")
         need(len(e.args[0].value) == 1, "replace pattern is not a single character")
         chain.append((e.args[0].value, e.args[1].value))
         e = e.func.value
@@ -31,116 +44,194 @@ def repr_of(fn):
     raise TranslateError("dot_repr changed: " + src[:200])
 
 
-class Classifier:
-    def __init__(self, fn):
-        self.fn = fn
-        self.assigns = {}
-        for n in ast.walk(fn):
-            if isinstance(n, ast.Assign) and len(n.targets) == 1 and isinstance(n.targets[0], ast.Name):
-                self.assigns.setdefault(n.targets[0].id, []).append(n.value)
-            elif isinstance(n, ast.AugAssign) and isinstance(n.target, ast.Name):
-                self.assigns.setdefault(n.target.id, []).append(n.value)
-        self.busy = set()
-
-    def kind(self, e):
-        s = ast.unparse(e)
-        if isinstance(e, ast.Call) and isinstance(e.func, ast.Name):
-            if e.func.id == "id":
-                return "HDigits"
-            if e.func.id == "dot_escape":
-                return "HEscaped"
-            if e.func.id == "dot_repr":
-                return "HRepr"
-        if isinstance(e, ast.Attribute) and e.attr in ("__name__", "name", "fqn") and s != "obj.name":
-            return "HIdent"       # class / attribute / rule names: grammar identifiers
-        if isinstance(e, ast.Attribute) and e.attr == "mult":
-            return "HConst"       # one of the multiplicity constants of textx/const.py
-        if isinstance(e, ast.JoinedStr):
-            return self.value_kind(e)
-        if isinstance(e, ast.Name):
-            if e.id in SAFE_NAMES and e.id not in self.assigns:
-                return SAFE_NAMES[e.id]
-            if e.id == "attr_value":
-                return self.attr_value_kind()
-            if e.id in self.busy:
-                return "HSafeText"    # self-reference while classifying the variable's own definitions
-            if e.id in self.assigns:
-                self.busy.add(e.id)
-                try:
-                    ks = [self.value_kind(v) for v in self.assigns[e.id]]
-                finally:
-                    self.busy.discard(e.id)
-                return "HRaw" if "HRaw" in ks else "HSafeText"
-        if isinstance(e, ast.Constant) and isinstance(e.value, str):
-            return "HRaw" if '"' in e.value else "HConst"
-        if isinstance(e, ast.IfExp):
-            ks = [self.kind(e.body), self.kind(e.orelse)]
-            return "HRaw" if "HRaw" in ks else "HSafeText"
-        return "HRaw"
-
-    def value_kind(self, v):
-        """kind of a string-valued expression used to build a variable"""
-        if isinstance(v, ast.Constant) and isinstance(v.value, str):
-            return "HRaw" if '"' in v.value else "HConst"
-        if isinstance(v, ast.JoinedStr):
-            for p in v.values:
-                if isinstance(p, ast.Constant):
-                    if '"' in p.value:
-                        return "HRaw"
-                elif self.kind(p.value) == "HRaw":
-                    return "HRaw"
-            return "HSafeText"
-        if isinstance(v, ast.Call) and ast.unparse(v.func) == "','.join" and len(v.args) == 1:
-            a = v.args[0]
-            if isinstance(a, (ast.ListComp, ast.GeneratorExp)) and self.kind(a.elt) in ("HRepr", "HEscaped", "HDigits"):
-                return "HSafeText"
-            return "HRaw"
-        if isinstance(v, ast.Call) and isinstance(v.func, ast.Attribute) and v.func.attr == "format":
-            ks = [self.kind(a) for a in v.args]
-            base = v.func.value
-            if isinstance(base, ast.Constant) and '"' not in base.value and "HRaw" not in ks:
-                return "HSafeText"
-            return "HRaw"
-        if isinstance(v, ast.BinOp) and isinstance(v.op, ast.Add):
-            ks = [self.value_kind(v.left), self.value_kind(v.right)]
-            return "HRaw" if "HRaw" in ks else "HSafeText"
-        return self.kind(v)
-
-    def attr_value_kind(self):
-        """`attr_value` interpolated as text: safe iff strings other than the name were passed through
-        dot_repr beforehand and the hole sits in the non-name branch of the primitive-type test."""
-        src = " ".join(ast.unparse(self.fn).split())
-        guard = "if isinstance(attr_value, str) and attr_name != 'name': attr_value = dot_repr(attr_value)"
-        branch = "if type(attr_value) in PRIMITIVE_PYTHON_TYPES: if attr_name == 'name':"
-        if guard in src and branch in src:
-            return "HPrim"
-        return "HRaw"
+def set_parents(node, parent=None):
+    node._parent = parent
+    for ch in ast.iter_child_nodes(node):
+        set_parents(ch, node)
 
 
-def templates_of(fn, cl):
-    """every f.write(<template>) of the function (not of nested defs handled separately)"""
+def own_nodes(fn):
+    """nodes of fn excluding nested function definitions"""
     out = []
-    for n in ast.walk(fn):
-        if isinstance(n, ast.Call) and ast.unparse(n.func) == "f.write" and len(n.args) == 1:
-            out.append(parts_of(n.args[0], cl))
+
+    def go(n):
+        for ch in ast.iter_child_nodes(n):
+            if isinstance(ch, (ast.FunctionDef, ast.Lambda, ast.ClassDef)):
+                continue
+            out.append(ch)
+            go(ch)
+    go(fn)
     return out
 
 
-def parts_of(e, cl):
-    if isinstance(e, ast.Constant) and isinstance(e.value, str):
-        return [("Lit", e.value)]
-    if isinstance(e, ast.JoinedStr):
-        parts = []
-        for p in e.values:
-            if isinstance(p, ast.Constant):
-                parts.append(("Lit", p.value))
-            else:
-                need(p.format_spec is None and p.conversion == -1, "format spec in template")
-                parts.append(("Hole", cl.kind(p.value), ast.unparse(p.value)))
-        return parts
-    if isinstance(e, ast.Call) and isinstance(e.func, ast.Attribute) and e.func.attr == "format" and isinstance(e.func.value, ast.Constant):
-        # '...{}...{}'.format(a, b): positional holes only
-        fmt = e.func.value.value
+def mentions(e, name):
+    return any(isinstance(n, ast.Name) and n.id == name for n in ast.walk(e))
+
+
+class Fn:
+    """one function: its output expressions as tx terms"""
+
+    def __init__(self, fn, consts, cls_methods=None):
+        self.fn = fn
+        self.consts = consts
+        self.methods = cls_methods or {}
+        self.nodes = own_nodes(fn)
+        self.assigns, self.augs = {}, {}
+        for n in self.nodes:
+            if isinstance(n, ast.Assign):
+                need(len(n.targets) == 1, "multiple assignment targets")
+                t = n.targets[0]
+                if isinstance(t, ast.Name):
+                    self.assigns.setdefault(t.id, []).append(n)
+            elif isinstance(n, ast.AugAssign) and isinstance(n.target, ast.Name):
+                need(isinstance(n.op, ast.Add), "augmented assignment other than +=")
+                self.augs.setdefault(n.target.id, []).append(n)
+        self.busy = set()
+
+    # ---- guards -------------------------------------------------------------------------------
+    def enclosing_ifs(self, node):
+        """[(If node, in_body: bool)] from innermost to outermost, within this function"""
+        res = []
+        ch, p = node, node._parent
+        while p is not None and p is not self.fn:
+            if isinstance(p, ast.If):
+                if any(ch is s for s in p.body):
+                    res.append((p, True))
+                elif any(ch is s for s in p.orelse):
+                    res.append((p, False))
+            ch, p = p, p._parent
+        return res
+
+    def assigned_in(self, stmts, name):
+        for s in stmts:
+            for n in ast.walk(s):
+                if isinstance(n, (ast.Assign, ast.AugAssign)):
+                    ts = n.targets if isinstance(n, ast.Assign) else [n.target]
+                    if any(isinstance(t, ast.Name) and t.id == name for t in ts):
+                        return True
+        return False
+
+    def known_primitive(self, name, site):
+        """is `name` an int/float/str/bool at `site`?  Only by an enclosing `if type(name) in PRIMITIVE_PYTHON_TYPES:` body
+        that does not assign it, or the all([...]) test over the list a comprehension variable is drawn from."""
+        for iff, in_body in self.enclosing_ifs(site):
+            if in_body and ast.unparse(iff.test) == PRIM_TEST.format(v=name) and not self.assigned_in(iff.body, name):
+                return iff
+        return None
+
+    def prim_kind(self, name, site):
+        """kind of the text of str(name) at site"""
+        iff = self.known_primitive(name, site)
+        if iff is None:
+            return "HRaw"
+        # a string is only harmless if it went through dot_repr: the statement just before the type test must be
+        #   if isinstance(name, str) and attr_name != 'name': name = dot_repr(name)
+        # and the site must be where attr_name != 'name'
+        block = iff._parent.body if any(iff is s for s in getattr(iff._parent, "body", [])) else getattr(iff._parent, "orelse", [])
+        k = next((i for i, s in enumerate(block) if s is iff), None)
+        if k is None or k == 0:
+            return "HRaw"
+        prev = " ".join(ast.unparse(block[k - 1]).split())
+        if prev != "if isinstance({v}, str) and attr_name != 'name': {v} = dot_repr({v})".format(v=name):
+            return "HRaw"
+        for inner, in_body in self.enclosing_ifs(site):
+            if inner is iff:
+                break
+            if not in_body and ast.unparse(inner.test) == "attr_name == 'name'" and not self.assigned_in(inner.orelse, "attr_name"):
+                return "HPrim"
+        return "HRaw"
+
+    def comp_primitive(self, call, site):
+        """dot_repr(x) as the element of a comprehension over L inside `if all([type(x) in PRIMITIVE_PYTHON_TYPES for x in L]):`"""
+        comp = site
+        while comp is not None and not isinstance(comp, (ast.ListComp, ast.GeneratorExp)):
+            comp = comp._parent
+        if comp is None or len(comp.generators) != 1 or comp.generators[0].ifs:
+            return False
+        g = comp.generators[0]
+        if not (isinstance(g.target, ast.Name) and len(call.args) == 1 and isinstance(call.args[0], ast.Name) and call.args[0].id == g.target.id):
+            return False
+        lst = ast.unparse(g.iter)
+        want = "all([type(x) in PRIMITIVE_PYTHON_TYPES for x in %s])" % lst
+        for iff, in_body in self.enclosing_ifs(site):
+            if in_body and ast.unparse(iff.test) == want and isinstance(g.iter, ast.Name) and not self.assigned_in(iff.body, g.iter.id):
+                return True
+        return False
+
+    def loop_var_kind(self, name):
+        """attr_name: key of obj_cls._tx_attrs; idx: enumerate index"""
+        for n in self.nodes:
+            if isinstance(n, ast.For):
+                t, it = ast.unparse(n.target), ast.unparse(n.iter)
+                if name == "attr_name" and t == "(attr_name, attr)" and it == "obj_cls._tx_attrs.items()":
+                    return "HIdent"
+                if name == "idx" and t.startswith("(idx, ") and it.startswith("enumerate("):
+                    return "HDigits"
+        return None
+
+    # ---- expressions --------------------------------------------------------------------------
+    def tx(self, e):
+        src = ast.unparse(e)
+        if isinstance(e, ast.Constant):
+            need(isinstance(e.value, str), "non-string constant written")
+            return ("Lit", e.value)
+        if isinstance(e, ast.JoinedStr):
+            parts = []
+            for p in e.values:
+                if isinstance(p, ast.Constant):
+                    parts.append(("Lit", p.value))
+                else:
+                    need(p.format_spec is None and p.conversion == -1, "format spec in template")
+                    parts.append(self.tx(p.value))
+            return ("Cat", parts)
+        if isinstance(e, ast.BinOp) and isinstance(e.op, ast.Add):
+            return ("Cat", [self.tx(e.left), self.tx(e.right)])
+        if isinstance(e, ast.IfExp):
+            return ("Alt", [self.tx(e.body), self.tx(e.orelse)])
+        if isinstance(e, ast.Call):
+            f = ast.unparse(e.func)
+            if f == "id" and len(e.args) == 1:
+                return ("Hole", "HDigits")
+            if f == "dot_escape" and len(e.args) == 1:
+                return ("Hole", "HEscaped")
+            if f == "html_escape" and len(e.args) == 1:
+                return ("Hole", "HHtml")
+            if f == "dot_repr" and len(e.args) == 1:
+                return ("Hole", "HPrim" if self.comp_primitive(e, e) else "HRaw")
+            if isinstance(e.func, ast.Attribute) and e.func.attr == "format" and isinstance(e.func.value, ast.Constant) and not e.keywords:
+                return self.fmt(e.func.value.value, e.args)
+            if isinstance(e.func, ast.Attribute) and e.func.attr == "join" and isinstance(e.func.value, ast.Constant) and len(e.args) == 1 \
+                    and isinstance(e.args[0], (ast.ListComp, ast.GeneratorExp)):
+                return ("Star", ("Alt", [self.tx(e.args[0].elt), ("Lit", e.func.value.value)]))
+            if isinstance(e.func, ast.Attribute) and isinstance(e.func.value, ast.Name) and e.func.value.id == "self" and not e.args and e.func.attr in self.methods:
+                return self.methods[e.func.attr]()
+            return ("Hole", "HRaw")
+        if isinstance(e, ast.Attribute):
+            if src in IDENT_EXPRS:
+                return ("Hole", "HIdent")
+            if src in PLAIN_EXPRS:
+                return ("Hole", "HPlain")
+            return ("Hole", "HRaw")
+        if isinstance(e, ast.Name):
+            return self.var(e.id, e)
+        return ("Hole", "HRaw")
+
+    def concat_parts(self, v):
+        """top-level pieces of a string concatenation (f-string parts or + operands) as AST expressions"""
+        if isinstance(v, ast.JoinedStr):
+            out = []
+            for p in v.values:
+                if isinstance(p, ast.Constant):
+                    out.append(p)
+                else:
+                    need(p.format_spec is None and p.conversion == -1, "format spec in template")
+                    out.append(p.value)
+            return out
+        if isinstance(v, ast.BinOp) and isinstance(v.op, ast.Add):
+            return self.concat_parts(v.left) + self.concat_parts(v.right)
+        return [v]
+
+    def fmt(self, fmt, args):
         parts, buf, i, k = [], "", 0, 0
         while i < len(fmt):
             two = fmt[i:i + 2]
@@ -151,67 +242,248 @@ def parts_of(e, cl):
                 buf += "}"
                 i += 2
             elif two == "{}":
-                need(k < len(e.args), "format() template with more holes than arguments")
+                need(k < len(args), "format() template with more holes than arguments")
                 parts.append(("Lit", buf))
                 buf = ""
-                parts.append(("Hole", cl.kind(e.args[k]), ast.unparse(e.args[k])))
+                parts.append(self.tx(args[k]))
                 k += 1
                 i += 2
             else:
                 need(fmt[i] not in "{}", "format() template with non-positional holes")
                 buf += fmt[i]
                 i += 1
-        need(k == len(e.args), "format() arguments not all used")
+        need(k == len(args), "format() arguments not all used")
         parts.append(("Lit", buf))
-        return parts
-    if isinstance(e, ast.Name) and e.id in MODULE_CONSTS:
-        return [("Lit", MODULE_CONSTS[e.id])]
-    if isinstance(e, ast.Name) or isinstance(e, ast.Call):
-        return [("Hole", cl.kind(e), ast.unparse(e))]
-    raise TranslateError("unsupported template expression: " + ast.unparse(e)[:80])
+        return ("Cat", parts)
+
+    def var(self, name, site):
+        if name in self.consts and name not in self.assigns and name not in self.augs:
+            return ("Lit", self.consts[name])
+        if name in ("attr_value", "list_obj"):
+            return ("Hole", self.prim_kind(name, site))
+        if name not in self.assigns and name not in self.augs:
+            k = self.loop_var_kind(name)
+            return ("Hole", k or "HRaw")
+        if name in self.busy:
+            return ("Hole", "HRaw")
+        self.busy.add(name)
+        try:
+            inits, apps, pres = [], [], []
+            for a in self.assigns.get(name, []):
+                v = a.value
+                if not mentions(v, name):
+                    inits.append(self.tx(v))
+                    continue
+                # x = <before> + x + <after> (f-string or +): every value of x is (before)* init (after)*
+                parts = self.concat_parts(v)
+                ks = [i for i, p in enumerate(parts) if isinstance(p, ast.Name) and p.id == name]
+                if len(ks) != 1 or any(mentions(p, name) for i, p in enumerate(parts) if i != ks[0]):
+                    return ("Hole", "HRaw")
+                k = ks[0]
+                if parts[:k]:
+                    pres.append(("Cat", [self.tx(p) for p in parts[:k]]))
+                if parts[k + 1:]:
+                    apps.append(("Cat", [self.tx(p) for p in parts[k + 1:]]))
+            for a in self.augs.get(name, []):
+                if mentions(a.value, name):
+                    return ("Hole", "HRaw")
+                apps.append(self.tx(a.value))
+            need(inits, "variable %s used in output is never initialised" % name)
+            t = ("Alt", inits) if len(inits) > 1 else inits[0]
+            seq = []
+            if pres:
+                seq.append(("Star", ("Alt", pres)))
+            seq.append(t)
+            if apps:
+                seq.append(("Star", ("Alt", apps)))
+            return ("Cat", seq)
+        finally:
+            self.busy.discard(name)
+
+    def writes(self):
+        """tx of the argument of every f.write(...) of this function, in source order"""
+        out = []
+        for n in self.nodes:
+            if isinstance(n, ast.Call) and ast.unparse(n.func) == "f.write":
+                need(len(n.args) == 1 and not n.keywords, "f.write with unexpected arguments")
+                out.append((n, self.tx(n.args[0])))
+        return out
+
+    def returns(self):
+        rs = [n for n in self.nodes if isinstance(n, ast.Return) and n.value is not None]
+        need(rs, "method %s returns nothing" % self.fn.name)
+        ts = [self.tx(r.value) for r in rs]
+        return ts[0] if len(ts) == 1 else ("Alt", ts)
 
 
-def c_parts(parts):
-    out = []
-    for p in parts:
-        if p[0] == "Lit":
-            out.append("Lit %s" % coq_codes(p[1]))
-        else:
-            out.append("Hole %s" % p[1])
-    return "[" + "; ".join(out) + "]"
+def simp(t):
+    """flatten nested Cat/Alt, merge adjacent literals, drop duplicates in Alt (purely structural)"""
+    if t[0] == "Cat":
+        parts = []
+        for p in map(simp, t[1]):
+            if p[0] == "Cat":
+                parts.extend(p[1])
+            else:
+                parts.append(p)
+        out = []
+        for p in parts:
+            if p[0] == "Lit" and out and out[-1][0] == "Lit":
+                out[-1] = ("Lit", out[-1][1] + p[1])
+            elif p == ("Lit", ""):
+                continue
+            else:
+                out.append(p)
+        if len(out) == 1:
+            return out[0]
+        return ("Cat", out) if out else ("Lit", "")
+    if t[0] == "Alt":
+        alts = []
+        for p in map(simp, t[1]):
+            for q in (p[1] if p[0] == "Alt" else [p]):
+                if q not in alts:
+                    alts.append(q)
+        return alts[0] if len(alts) == 1 else ("Alt", alts)
+    if t[0] == "Star":
+        return ("Star", simp(t[1]))
+    return t
 
 
-MODULE_CONSTS = {}
+def node_labels(doc):
+    """the label texts of the node statements  <id>[label="..."]  among the output statements of a (simplified) document"""
+    need(doc[0] == "Cat", "document is not a sequence")
+    stars = [p for p in doc[1] if p[0] == "Star"]
+    need(stars, "document has no repeated part")
+    sites = stars[0][1][1] if stars[0][1][0] == "Alt" else [stars[0][1]]
+    labels = []
+    for t in sites:
+        if not (t[0] == "Cat" and len(t[1]) >= 3 and t[1][0] == ("Hole", "HDigits") and t[1][1][0] == "Lit" and t[1][1][1].lstrip().startswith("[")):
+            continue
+        first, last = t[1][1][1], t[1][-1]
+        if not first.lstrip().startswith("[dir"):
+            pre = next((x for x in ('[label="', '[ label="') if first.startswith(x)), None)
+            need(pre is not None, "node statement with an unexpected attribute list: %r" % first[:30])
+            need(last[0] == "Lit" and last[1].rstrip("\n").endswith('"]'), "node statement does not end with the label")
+            body = last[1].rstrip("\n")[:-2]
+            labels.append(simp(("Cat", [("Lit", first[len(pre):])] + list(t[1][2:-1]) + [("Lit", body)])))
+    need(labels, "no node statement found")
+    return labels
+
+
+def coq_tx(t):
+    if t[0] == "Lit":
+        return "TLit %s" % coq_codes(t[1])
+    if t[0] == "Hole":
+        return "THole %s" % t[1]
+    if t[0] == "Star":
+        return "TStar (%s)" % coq_tx(t[1])
+    return "%s [%s]" % ("TCat" if t[0] == "Cat" else "TAlt", "; ".join(coq_tx(p) for p in t[1]))
+
+
+def renderer_doc(tree, clsname, consts, mm_fn):
+    """first write, other writes, last write of metamodel_export_tofile with `renderer` bound to the class"""
+    memo = {}
+
+    def method(name):
+        def get():
+            if name not in memo:
+                fn = find_func(tree, name, cls=clsname)
+                memo[name] = Fn(fn, consts, methods).returns()
+            return memo[name]
+        return get
+    cls = next(n for n in ast.walk(tree) if isinstance(n, ast.ClassDef) and n.name == clsname)
+    methods = {m.name: method(m.name) for m in cls.body if isinstance(m, ast.FunctionDef)}
+
+    def arg_tx(e):
+        if isinstance(e, ast.Constant) and isinstance(e.value, str):
+            return ("Lit", e.value)
+        if isinstance(e, ast.JoinedStr):
+            return ("Cat", [("Lit", p.value) if isinstance(p, ast.Constant) else arg_tx(p.value) for p in e.values])
+        if isinstance(e, ast.Call) and isinstance(e.func, ast.Attribute) and ast.unparse(e.func.value) == "renderer":
+            need(e.func.attr in methods, "renderer method %s not found in %s" % (e.func.attr, clsname))
+            return methods[e.func.attr]()
+        raise TranslateError("metamodel_export_tofile writes something unexpected: " + ast.unparse(e)[:80])
+    ws = [n for n in own_nodes(mm_fn) if isinstance(n, ast.Call) and ast.unparse(n.func) == "f.write"]
+    need(len(ws) >= 3, "metamodel_export_tofile: writes not found")
+    top = [s.value for s in mm_fn.body if isinstance(s, ast.Expr)]
+    need(ws[0] in top and ws[-1] in top and all(ws[0].lineno <= w.lineno <= ws[-1].lineno for w in ws), "metamodel_export_tofile: first/last write are not top-level statements")
+    first_stmt = next(i for i, s in enumerate(mm_fn.body) if isinstance(s, ast.Expr) and s.value is ws[0])
+    need(all(isinstance(s, ast.If) or (isinstance(s, ast.Expr) and s.value is ws[0]) for s in mm_fn.body[:first_stmt + 1]) and
+         not any(isinstance(n, (ast.Call)) and ast.unparse(n.func) == "f.write" for s in mm_fn.body[:first_stmt] for n in ast.walk(s)),
+         "metamodel_export_tofile: something is written before the header")
+    need(mm_fn.body[-1].value is ws[-1] if isinstance(mm_fn.body[-1], ast.Expr) else False, "metamodel_export_tofile: the trailer is not written last")
+    txs = [arg_tx(w.args[0]) for w in ws]
+    return ("Cat", [txs[0], ("Star", ("Alt", txs[1:-1])), txs[-1]])
+
+
+def compute():
+    """(chain, limit, {name: tx}) read from the current source"""
+    tree, _ = parse_file("textx/export.py")
+    set_parents(tree)
+    consts = {}
+    for n in tree.body:
+        if isinstance(n, ast.Assign) and len(n.targets) == 1 and isinstance(n.targets[0], ast.Name) and isinstance(n.value, ast.Constant) and isinstance(n.value.value, str):
+            consts[n.targets[0].id] = n.value.value
+    chain = chain_of(find_func(tree, "dot_escape"))
+    limit = repr_of(find_func(tree, "dot_repr"))
+    he = ast.unparse(find_func(tree, "html_escape"))
+    need(he == "def html_escape(s):\n    from html import escape\n    return escape(s)", "html_escape changed")
+    # multiplicity / rule-kind constants are plain words
+    ctree, _ = parse_file("textx/const.py")
+    seen_consts = set()
+    for n in ctree.body:
+        if isinstance(n, ast.Assign) and isinstance(n.targets[0], ast.Name) and n.targets[0].id in ("MULT_ONE", "MULT_OPTIONAL", "MULT_ZEROORMORE", "MULT_ONEORMORE", "RULE_COMMON", "RULE_ABSTRACT", "RULE_MATCH"):
+            seen_consts.add(n.targets[0].id)
+            need(isinstance(n.value, ast.Constant) and isinstance(n.value.value, str) and all(c.isalnum() or c in ".*" for c in n.value.value),
+                 "const %s is not a plain word" % n.targets[0].id)
+    need(len(seen_consts) == 7, "multiplicity / rule-kind constants not found in textx/const.py")
+
+    # ---- model export
+    mfn = find_func(tree, "model_export_to_file")
+    top = Fn(mfn, consts).writes()
+    need(len(top) == 2, "model_export_to_file: expected exactly the header and the closing brace at top level")
+    stmts = mfn.body
+    k_first = next(i for i, s in enumerate(stmts) if isinstance(s, ast.Expr) and s.value is top[0][0])
+    need(isinstance(stmts[-1], ast.Expr) and stmts[-1].value is top[1][0], "model_export_to_file: the closing brace is not written last")
+    need(not any(isinstance(s, ast.FunctionDef) for s in stmts[:k_first]) and
+         not any(isinstance(n, ast.Call) and ast.unparse(n.func) in ("_export", "_export_subgraph") for s in stmts[:k_first] for n in ast.walk(s)),
+         "model_export_to_file: output before the header")
+    inner = []
+    for s in stmts:
+        if isinstance(s, ast.FunctionDef):
+            need(s.name in ("_export", "_export_subgraph"), "model_export_to_file: unexpected nested function " + s.name)
+            inner += [t for _, t in Fn(s, consts).writes()]
+    need(len(inner) >= 6, "model_export_to_file: output statements not found")
+    model_doc = ("Cat", [top[0][1], ("Star", ("Alt", inner)), top[1][1]])
+
+    # ---- metamodel export
+    mm_fn = find_func(tree, "metamodel_export_tofile")
+    mm_doc = renderer_doc(tree, "DotRenderer", consts, mm_fn)
+    pu_doc = renderer_doc(tree, "PlantUmlRenderer", consts, mm_fn)
+
+    return chain, limit, {"model_doc": simp(model_doc), "metamodel_doc": simp(mm_doc), "plantuml_doc": simp(pu_doc)}
 
 
 def translate():
-    tree, _ = parse_file("textx/export.py")
-    MODULE_CONSTS.clear()
-    for n in tree.body:
-        if isinstance(n, ast.Assign) and len(n.targets) == 1 and isinstance(n.targets[0], ast.Name) and isinstance(n.value, ast.Constant) and isinstance(n.value.value, str):
-            MODULE_CONSTS[n.targets[0].id] = n.value.value
-    chain = chain_of(find_func(tree, "dot_escape"))
-    limit = repr_of(find_func(tree, "dot_repr"))
-    mfn = find_func(tree, "model_export_to_file")
-    cl = Classifier(mfn)
-    templates = templates_of(mfn, cl)
-    need(len(templates) >= 6, "model_export_to_file templates not found")
-    # DotRenderer methods return their templates
-    rtemps = []
-    for meth in ("render_class", "render_attr_link", "render_inherited_by"):
-        fn = find_func(tree, meth, cls="DotRenderer")
-        c2 = Classifier(fn)
-        for n in ast.walk(fn):
-            if isinstance(n, ast.Return) and n.value is not None and not (isinstance(n.value, ast.Constant) and n.value.value == ""):
-                rtemps.append(parts_of(n.value, c2))
-    need(len(rtemps) == 3, "DotRenderer templates not found (%d)" % len(rtemps))
+    chain, limit, docs = compute()
+    model_doc, mm_doc, pu_doc = docs["model_doc"], docs["metamodel_doc"], docs["plantuml_doc"]
     lines = ["From TxV Require Import Core.Base Model.ExportDefs.",
              "Definition escape_chain : list (N * list N) :=",
              "  [" + ";\n   ".join("(%d%%N, %s)" % (ord(a), coq_codes(b)) for a, b in chain) + "].",
              "Definition repr_limit : nat := %d." % limit,
-             "Definition model_templates : list (list tpart) :=",
-             "  [" + ";\n   ".join(c_parts(t) for t in templates) + "].",
-             "Definition metamodel_templates : list (list tpart) :=",
-             "  [" + ";\n   ".join(c_parts(t) for t in rtemps) + "]."]
+             "Definition export_header : list N := %s." % coq_codes(model_doc[1][0][1] if model_doc[1][0][0] == "Lit" else ""),
+             "Definition model_doc : tx :=\n  %s." % coq_tx(simp(model_doc)),
+             "Definition metamodel_doc : tx :=\n  %s." % coq_tx(simp(mm_doc)),
+             "Definition plantuml_doc : tx :=\n  %s." % coq_tx(simp(pu_doc)),
+             "Definition model_labels : list tx :=\n  [%s]." % ";\n   ".join(coq_tx(t) for t in node_labels(model_doc)),
+             "Definition metamodel_labels : list tx :=\n  [%s]." % ";\n   ".join(coq_tx(t) for t in node_labels(mm_doc))]
     emit("SrcExport", "\n".join(lines) + "\n")
     return []
+
+
+def describe():
+    """human-readable dump (used by design notes / debugging)"""
+    import re
+    translate()
+    from vt import core
+    import os
+    return re.sub(r"\[([0-9;]+)\]%N", lambda m: repr("".join(chr(int(x)) for x in m.group(1).split(";"))), open(os.path.join(core.GEN, "SrcExport.v")).read())
